@@ -549,7 +549,8 @@ def _request(rng, persist=True):
     body = _body(rng) if method not in ("GET", "HEAD") or rng.random() < 0.2 else b""
     mode = rng.random()
     if body and mode < 0.4:
-        hs.append(rng.choice([b"Transfer-Encoding: chunked", b"transfer-encoding: Chunked"]))
+        hs.append(rng.choice([b"Transfer-Encoding: chunked", b"transfer-encoding: Chunked", b"Transfer-Encoding:  chunked", b"Transfer-Encoding: chunked \t",
+                              b"Transfer-Encoding: \xa0chunked\x85"]))
         payload = _chunked(rng, body, exts=rng.random() < 0.4, trailers=rng.random() < 0.3)
     else:
         if body or rng.random() < 0.3:
@@ -842,7 +843,7 @@ def _response(rng, last=False, method="GET", redirect=None):
         if rng.random() < 0.5:
             hs.append(b"Content-Length: %d" % len(body))
     elif mode < 0.35:
-        hs.append(rng.choice([b"Transfer-Encoding: chunked", b"transfer-encoding: CHUNKED"]))
+        hs.append(rng.choice([b"Transfer-Encoding: chunked", b"transfer-encoding: CHUNKED", b"Transfer-Encoding:  chunked ", b"Transfer-Encoding: chunked\t"]))
         payload = _chunked(rng, body, exts=rng.random() < 0.4, trailers=rng.random() < 0.3)
     elif mode < 0.85 or not last:
         hs.append(b"Content-Length: %d" % len(body))
